@@ -90,6 +90,7 @@ theorem C32_never_live (env : Env) (w : World) (i : Nat) (op : Op) (hdead : w.al
                        all_goals simp_all
     | collAssign a same => cases same <;> simp [hov]
     | useAsRef => simp [hov]; split <;> simp
+    | collSelect a => simp only; split <;> simp
     | flush => simp [hov]; repeat' split
                all_goals simp
     | _ => simp [hov, attrLoadOut, setLoadOut]
@@ -133,9 +134,9 @@ theorem C32_readonly (env : Env) (w : World) (i : Nat) (op : Op) (hdead : w.aliv
       repeat' split
       all_goals first
         | exact ⟨rfl, hdead⟩
-        | (rename_i it _ _ _ _ _ _ _; exact ⟨setObj_core w j it _ (by assumption) (bump_core it a.revBit), hdead⟩)
+        | (rename_i it hj _ _ _ _ _ _ _ _; exact ⟨setObj_core w j it _ hj (bump_core it a.revBit), hdead⟩)
     | _ => simp only [collGet]; repeat' split
-           all_goals exact ⟨rfl, hdead⟩
+           all_goals (first | exact ⟨rfl, hdead⟩ | simp [hdead])
 
 /-- an operation that raises changes nothing at all, except `to_dict` / `copy` / `in`, whose earlier successful reads may have set
     read bits before a later attribute fails -/
@@ -241,7 +242,8 @@ theorem C32_count_isEmpty_unknown (env : Env) (w : World) (i : Nat) (o : Obj) (a
       | _ => simp [hov]
 
 /-- strict: an object without values refuses every read (of a deleted object: "was deleted") and is not changed -/
-theorem C32_strict_reads (env : Env) (w : World) (i : Nat) (o : Obj) (op : Op) (ho : w.objs[i]? = some o) (hv : o.vals = none)
+theorem C32_strict_reads (env : Env) (w : World) (i : Nat) (o : Obj) (op : Op) (hdead : w.alive = false)
+    (ho : w.objs[i]? = some o) (hv : o.vals = none)
     (hr : match op with
           | .getAttr _ | .collCopy _ | .collLen _ | .collCount _ | .collIsEmpty _ | .collContains _ _ => True
           | .toDict (_ :: _) => True
@@ -262,14 +264,87 @@ theorem C32_strict_reads (env : Env) (w : World) (i : Nat) (o : Obj) (op : Op) (
     cases attrs with
     | nil => exact absurd hr (by simp)
     | cons a rest =>
-      simp only [step, ho]
-      split
-      · -- a live cache with `_vals_ = None` does not exist; the guard still gives no change
-        rename_i hlive
-        simp [over] at hlive
-        simp
-        sorry
-      · sorry
+      have hov := over_of_dead w o hdead
+      simp only [step, ho, hov, toDictLoop, toDictStep]
+      cases hk : a.kind with
+      | coll =>
+        simp only [collGet, collCopy, hv]
+        by_cases hd : o.status.isDel = true <;> simp [hd]
+      | scalar =>
+        simp only [attrGetDescr, attrGet, hv]
+        by_cases hp : a.isPk = true
+        · simp [hp]
+        · by_cases hg : o.status.isGone = true <;> simp [hp, hg]
+      | ref =>
+        simp only [attrGetDescr, attrGet, hv]
+        by_cases hp : a.isPk = true
+        · simp [hp]
+        · by_cases hg : o.status.isGone = true <;> simp [hp, hg]
   | _ => exact absurd hr (by simp)
+
+/-! ### one-to-many `copy()` / iteration of a fully loaded collection: true with a guard, false in general (known finding) -/
+
+/-- full statement: a fully loaded collection of a non-strict finished session can always be copied / iterated -/
+def C32_copy_full : Prop :=
+  ∀ (env : Env) (w : World) (i : Nat) (o : Obj) (a : Attr) (vs : Vals) (sd : SetData),
+    w.alive = false → w.objs[i]? = some o → o.status.isDel = false → o.vals = some vs →
+    lookup vs a.id = some (.coll sd) → sd.full = true → (step env w i (.collCopy a)).out = .value (.items sd.items)
+
+/-- what a session that failed inside flush() leaves: the parent's `added` was already cleared by `_calc_modified_m2m`,
+    the rejected new item is still 'created' (no write bits) -/
+def failedFlushWorld : World :=
+  { alive := false, savedPending := false,
+    objs := [ { ent := 0, status := .loaded, hasCache := false, vals := some [(0, .val 2), (4, .coll { SetData.empty with items := [1], full := true, count := some 1 })],
+                dbvals := none, rbits := some 0, wbits := some 0, savePos := none },
+              { ent := 1, status := .created, hasCache := false, vals := some [(6, .val 1), (7, .val 0)], dbvals := none,
+                rbits := none, wbits := none, savePos := some 0 } ] }
+
+theorem C32_copy_full_false : ¬ C32_copy_full := by
+  intro h
+  have := h ⟨false⟩ failedFlushWorld 0 _ { id := 4, ent := 0, kind := .coll, isPk := false, isLazy := false, bit := 0, rev := 7, revIsColl := false, revIsPk := false, revBit := 1 }
+    _ _ rfl rfl rfl rfl rfl rfl
+  revert this; decide
+
+/-- guard: every item that is not in `added` has write bits (was loaded or saved) -/
+theorem C32_copy_partial (env : Env) (w : World) (i : Nat) (o : Obj) (a : Attr) (vs : Vals) (sd : SetData)
+    (ho : w.objs[i]? = some o) (hd : o.status.isDel = false) (hv : o.vals = some vs)
+    (hs : lookup vs a.id = some (.coll sd)) (hf : sd.full = true)
+    (hg : ∀ j ∈ sd.items, mem? sd.added j = false → ∃ it, w.objs[j]? = some it ∧ it.wbits.isSome = true) :
+    (step env w i (.collCopy a)).out = .value (.items sd.items) := by
+  simp only [step, ho, collCopy, hd, hv, hs, hf]
+  by_cases hr : (!a.revIsColl && !a.revIsPk) = true
+  · have hb := copyBump_ok a sd.added sd.items w hg
+    simp only [hr]
+    generalize copyBump a sd.added sd.items w = r at hb
+    rcases r with ⟨w', b⟩
+    simp only at hb
+    subst hb
+    simp
+  · simp [hr]
+
+/-! ### the hypotheses are satisfiable: a concrete finished session -/
+
+/-- G[0] (loaded; scalar 1 held, collection 4 pruned by close, collection 5 fully loaded) and I[1] (modified, pending) -/
+def demoLive : World :=
+  { alive := true, savedPending := false,
+    objs := [ { ent := 0, status := .loaded, hasCache := true,
+                vals := some [(0, .val 1), (1, .val 10), (4, .coll { SetData.empty with items := [1] }),
+                              (5, .coll { SetData.empty with full := true, count := some 0 })],
+                dbvals := some [(1, some 10)], rbits := some 0, wbits := some 0, savePos := none },
+              { ent := 1, status := .modified, hasCache := true, vals := some [(6, .val 1), (7, .val 0), (8, .val 5)],
+                dbvals := some [(7, some 0), (8, some 6)], rbits := some 0, wbits := some 2, savePos := some 0 } ] }
+def demo : World := close false true demoLive
+def attrA : Attr := { id := 1, ent := 0, kind := .scalar, isPk := false, isLazy := false, bit := 1, rev := 0, revIsColl := false, revIsPk := false, revBit := 0 }
+def attrItems : Attr := { id := 4, ent := 0, kind := .coll, isPk := false, isLazy := false, bit := 0, rev := 7, revIsColl := false, revIsPk := false, revBit := 1 }
+def attrTags : Attr := { id := 5, ent := 0, kind := .coll, isPk := false, isLazy := false, bit := 0, rev := 12, revIsColl := true, revIsPk := false, revBit := 0 }
+
+example : demo.alive = false := by decide
+example : (step ⟨false⟩ demo 0 (.getAttr attrA)).out = .value (.int 10) := by decide
+example : (step ⟨true⟩ demo 0 (.setAttr attrA)).out = .sessionOver .assign := by decide
+example : (step ⟨true⟩ demo 0 (.collCopy attrItems)).out = .sessionOver .loadCollection := by decide
+example : (step ⟨true⟩ demo 0 (.collIsEmpty attrItems)) = ⟨demo, .sessionOver .readValue, []⟩ := by decide
+example : (step ⟨false⟩ demo 0 (.collCopy attrTags)).out = .value (.items []) := by decide
+example : (step ⟨false⟩ demo 1 .flush).out = .sessionOver .flushObject := by decide
+example : (step ⟨false⟩ (close true true demoLive) 0 (.getAttr attrA)).out = .sessionOver .readValue := by decide
 
 end PonyVerif.Props.C32
